@@ -141,7 +141,10 @@ func verifNDTime(name string) time.Time {
 // is covered by VerifC26Value; every symbolic duration costs several slow integer-division queries).
 var verifDurations = []time.Duration{0, 1, -1, 1500 * time.Millisecond, -1500 * time.Millisecond, 1<<63 - 1, -1 << 63}
 
-// verifNDValue is octosql.VerifNDValue with durations drawn from verifDurations.
+// verifNDValue is octosql.VerifNDValue with durations drawn from verifDurations and times from
+// verifFarTimes + 2 (arbitrary durations / times: VerifC26Value, VerifC26TimeValue). A time or
+// duration that is symbolic costs several slow integer-division queries as soon as the code under
+// test multiplies or divides it by 1e9, and two of them in one value are not decided at all.
 func verifNDValue(name string, depth, maxElems, strLen int) octosql.Value {
 	n := octosql.VKList
 	if depth > 0 {
@@ -150,6 +153,17 @@ func verifNDValue(name string, depth, maxElems, strLen int) octosql.Value {
 	kind := zzverif.Choice(name+".kind", n)
 	if kind == octosql.VKDuration {
 		return octosql.NewDuration(verifDurations[zzverif.Choice(name+".dur", len(verifDurations))])
+	}
+	if kind == octosql.VKTime {
+		// fixed instants (see verifFarTimes) plus a present-day one in local and UTC representation
+		k := zzverif.Choice(name+".time", len(verifFarTimes)+2)
+		switch {
+		case k < len(verifFarTimes):
+			return octosql.NewTime(verifFarTimes[k])
+		case k == len(verifFarTimes):
+			return octosql.NewTime(time.Unix(1600000000, 5))
+		}
+		return octosql.NewTime(time.Unix(1600000000, 5).UTC())
 	}
 	if kind < octosql.VKList {
 		return octosql.VerifNDScalar(name, kind, strLen)
